@@ -6,12 +6,15 @@
         (exit data of every inner solver: tied per run by the C03/C05/C06 correspondences, gradient by C04)
      =>  dist(-(grad f(x_hat)+grad g(x_hat) y_hat), N_C(x_hat)) <= eps,  dist(g(x_hat), D) <= ||e||inf,  complementarity.           *)
 From Coq Require Import Reals List ZArith Bool Lra.
-From Alpaqa Require Import Lbfgs.     (* first: its short names (params, apply, …) must not shadow Panoc's below *)
+(* first: the short names of these modules (params, apply, L_init, reachable, Inv, …) must not shadow Panoc's, which the statements below use *)
+From Alpaqa Require Import FistaLoop FistaLoopProofs FistaLen Pantr PantrProofs PantrLen.
+From Alpaqa Require Import Lbfgs.
 From Alpaqa Require Import Num NumR Vec Prox ProxProofs ProxVec SolverStatus SolverKernels SolverKernelsProofs KktProofs
      StopChain StopChainProofs Alm AlmProofs
      AugLag AugLagProofs Panoc PanocProofs PanocLen AlmCompose AlmComposeProofs AlmComposeKkt AlmPanoc AlmPanocProofs
      ZeroFpr ZeroFprProofs ZeroFprLen AlmZeroFpr AlmZeroFprProofs
-     Directions PanocDir PanocDirProofs PanocDirLen AlmPanocDir AlmPanocDirProofs.
+     Directions PanocDir PanocDirProofs PanocDirLen AlmPanocDir AlmPanocDirProofs
+     AlmPantr AlmPantrProofs AlmFista AlmFistaProofs.
 Import ListNotations.
 Local Open Scope R_scope.
 
@@ -470,3 +473,139 @@ Theorem C01_alm_panoc_lbfgs_converged_is_kkt :
       (nth i y 0 < 0 -> exists l, nth i (plb Pb) None = Some l /\ Rabs (nth i (pg Pb x) 0 - l) <= p_dual_tol AP)).
 Proof. exact alm_panoc_lbfgs_converged_is_kkt. Qed.
 Print Assumptions C01_alm_panoc_lbfgs_converged_is_kkt.
+
+(* non-vacuity of (7)/(8): the instance of C01_alm_panoc_nonvacuous with LBFGSDirection (memory 5) as the provider, started from the
+   default-constructed (unsized) provider: the composed model returns Converged after one outer iteration, x = 0, y = 0 *)
+Example C01_alm_panoc_lbfgs_nonvacuous :
+  exists co,
+    alm_panoc_dir nvPb nvprov (fun _ => []) [Some 0] [Some 1] [] 0 (Lbfgs.state R) (lbfgs_dir 1 nv_pw nvLP false) nv_never nv_never (fun _ => false)
+                  nvPP nvAP 5 5 (lbfgs_unsized (T:=R)) 3 0 None [0] [0] = Some co /\
+    f_status (co_final co) = Converged /\ co_x co = [0] /\ f_y (co_final co) = [0].
+Proof. exact nvD_converged. Qed.
+
+(* (9) PANTR and FISTA *)
+(* END-TO-END for ALM∘PANTR (composed executable model AlmPantr.alm_pantr): same conclusion as C01_alm_panoc_converged_is_kkt.
+   Hypotheses, each genuinely needed:
+     provider_ok, grad_g_prod_empty_ok, l1 = []            as for PANOC
+     stop_crit = ApproxKKT, 0 < Lγ                          as for PANOC (of PANTRParams)
+     0 < L_0  \/  0 < L_min <= L_max                        PANTR uses PANOC's initial Lipschitz estimate: L > 0, hence γ > 0
+     the dimension hypotheses                               as for PANOC
+     direction.apply leaves an n-vector in q whenever the FBS iterate it is handed sits at an n-vector (the accepted candidate is x̂ₖ + q)
+     ALM hypotheses                                         as for PANOC
+   NOT needed: anything on the TR radii / ratio thresholds, on the model value q_model, on compute_ratio_using_new_stepsize,
+   update_direction_on_prox_step, disable_acceleration, on eval_grad_L's / eval_grad_ψ's / eval_ψ's output lengths, on fuel. *)
+Theorem C01_alm_pantr_converged_is_kkt :
+  forall (Pb : problem (T:=R)) (prov : fn -> bool) (wm_supplied : list R -> list R) (Clb Cub : list (option R)) (l1 : list R)
+    (split : nat) (tr_dir : nat -> iterate (T:=R) -> R -> list R * R) (has_initial : bool) (stop_req time_up : counters -> bool)
+    (outer_oot : nat -> bool) (TP : trparams (T:=R)) (AP : alm_params (T:=R)) (bt_fuel inner_fuel n m : nat),
+  provider_ok Pb prov ->
+  grad_g_prod_empty_ok Pb ->
+  l1 = [] ->
+  p_crit (tp_base TP) = ApproxKKT ->
+  0 < p_Lgamma (tp_base TP) ->
+  0 < p_L0 (tp_base TP) \/ 0 < p_Lmin (tp_base TP) <= p_Lmax (tp_base TP) ->
+  length Clb = n -> length Cub = n -> Forall2 box_ne Clb Cub ->
+  (forall x, length x = n -> length (pgrad_f Pb x) = n) ->
+  (forall x y, length x = n -> length (pgrad_g_prod Pb x y) = n) ->
+  (forall x, length x = n -> length (pg Pb x) = m) ->
+  length (plb Pb) = m -> length (pub Pb) = m -> Forall2 box_ne (plb Pb) (pub Pb) ->
+  (forall j px Δ, length (ix px) = n -> length (fst (tr_dir j px Δ)) = n) ->
+  forall (outer_fuel : nat) (nanv : R) (Σ0 : option (list R)) (y0 x0 : list R) (co : cout counters (tresult (T:=R))),
+  length x0 = n -> length y0 = m ->
+  Alm.p_max_iter AP <> 0%nat ->
+  (m <> 0%nat -> sigma_inv AP m (initial_sigma AP m (pf Pb x0) (pg Pb x0) Σ0)) ->
+  (m = 0%nat -> 0 < p_tol AP) ->
+  alm_pantr Pb prov wm_supplied Clb Cub l1 split tr_dir has_initial stop_req time_up outer_oot TP AP bt_fuel inner_fuel outer_fuel nanv Σ0 y0 x0
+    = Some co ->
+  f_status (co_final co) = Converged ->
+  let x := co_x co in
+  let y := f_y (co_final co) in
+  length x = n /\ length y = m /\
+  (* x in C *)
+  (forall i, (i < n)%nat -> in_box (nth i Clb None) (nth i Cub None) (nth i x 0)) /\
+  (* stationarity: -(∇f(x) + ∇g(x) y) within `tolerance` (max norm) of the normal cone of C at x *)
+  (forall i, (i < n)%nat -> exists r,
+      (forall u, in_box (nth i Clb None) (nth i Cub None) u -> r * (u - nth i x 0) <= 0) /\
+      Rabs (- nth i (vadd (pgrad_f Pb x) (pgrad_g_prod Pb x y)) 0 - r) <= p_tol AP) /\
+  (* feasibility: dist∞(g(x), D) <= dual_tolerance *)
+  (forall i, (i < m)%nat -> exists z,
+      in_box (nth i (plb Pb) None) (nth i (pub Pb) None) z /\ Rabs (nth i (pg Pb x) 0 - z) <= p_dual_tol AP) /\
+  (* complementarity: y_i > 0 (< 0) only where g_i(x) is within dual_tolerance of its upper (lower) bound *)
+  (forall i, (i < m)%nat ->
+      (0 < nth i y 0 -> exists u, nth i (pub Pb) None = Some u /\ Rabs (nth i (pg Pb x) 0 - u) <= p_dual_tol AP) /\
+      (nth i y 0 < 0 -> exists l, nth i (plb Pb) None = Some l /\ Rabs (nth i (pg Pb x) 0 - l) <= p_dual_tol AP)).
+Proof. exact alm_pantr_converged_is_kkt. Qed.
+Print Assumptions C01_alm_pantr_converged_is_kkt.
+
+(* END-TO-END for ALM∘FISTA (composed executable model AlmFista.alm_fista): same conclusion.
+   Hypotheses, each genuinely needed:
+     provider_ok, grad_g_prod_empty_ok, l1 = [], stop_crit = ApproxKKT, 0 < Lγ, dimensions, ALM hypotheses      as for PANOC
+     0 < L_min <= L_max  \/  (L_min <> L_max /\ 0 < L_0)    the initial L is positive, hence γ > 0:  L = L_max in fixed-step mode
+                                                            (L_min == L_max), else L_0 if L_0 > 0, else the estimate clamped to [L_min, L_max]
+   NOT needed: anything on disable_acceleration, on fixed-step vs backtracking mode beyond the line above, on max_no_progress,
+   on eval_ψ's / eval_grad_L's output lengths, on the stop / clock oracles, on fuel. *)
+Theorem C01_alm_fista_converged_is_kkt :
+  forall (Pb : problem (T:=R)) (prov : fn -> bool) (Clb Cub : list (option R)) (l1 : list R)
+    (split : nat) (stop_req time_up : fcounters -> bool)
+    (outer_oot : nat -> bool) (FP : fparams (T:=R)) (AP : alm_params (T:=R)) (bt_fuel inner_fuel n m : nat),
+  provider_ok Pb prov ->
+  grad_g_prod_empty_ok Pb ->
+  l1 = [] ->
+  fp_crit FP = ApproxKKT ->
+  0 < fp_Lgamma FP ->
+  0 < fp_Lmin FP <= fp_Lmax FP \/ (fp_Lmin FP <> fp_Lmax FP /\ 0 < fp_L0 FP) ->
+  length Clb = n -> length Cub = n -> Forall2 box_ne Clb Cub ->
+  (forall x, length x = n -> length (pgrad_f Pb x) = n) ->
+  (forall x y, length x = n -> length (pgrad_g_prod Pb x y) = n) ->
+  (forall x, length x = n -> length (pg Pb x) = m) ->
+  length (plb Pb) = m -> length (pub Pb) = m -> Forall2 box_ne (plb Pb) (pub Pb) ->
+  forall (outer_fuel : nat) (nanv : R) (Σ0 : option (list R)) (y0 x0 : list R) (co : cout fcounters (fresult (T:=R))),
+  length x0 = n -> length y0 = m ->
+  Alm.p_max_iter AP <> 0%nat ->
+  (m <> 0%nat -> sigma_inv AP m (initial_sigma AP m (pf Pb x0) (pg Pb x0) Σ0)) ->
+  (m = 0%nat -> 0 < p_tol AP) ->
+  alm_fista Pb prov Clb Cub l1 split stop_req time_up outer_oot FP AP bt_fuel inner_fuel outer_fuel nanv Σ0 y0 x0 = Some co ->
+  f_status (co_final co) = Converged ->
+  let x := co_x co in
+  let y := f_y (co_final co) in
+  length x = n /\ length y = m /\
+  (forall i, (i < n)%nat -> in_box (nth i Clb None) (nth i Cub None) (nth i x 0)) /\
+  (forall i, (i < n)%nat -> exists r,
+      (forall u, in_box (nth i Clb None) (nth i Cub None) u -> r * (u - nth i x 0) <= 0) /\
+      Rabs (- nth i (vadd (pgrad_f Pb x) (pgrad_g_prod Pb x y)) 0 - r) <= p_tol AP) /\
+  (forall i, (i < m)%nat -> exists z,
+      in_box (nth i (plb Pb) None) (nth i (pub Pb) None) z /\ Rabs (nth i (pg Pb x) 0 - z) <= p_dual_tol AP) /\
+  (forall i, (i < m)%nat ->
+      (0 < nth i y 0 -> exists u, nth i (pub Pb) None = Some u /\ Rabs (nth i (pg Pb x) 0 - u) <= p_dual_tol AP) /\
+      (nth i y 0 < 0 -> exists l, nth i (plb Pb) None = Some l /\ Rabs (nth i (pg Pb x) 0 - l) <= p_dual_tol AP)).
+Proof. exact alm_fista_converged_is_kkt. Qed.
+Print Assumptions C01_alm_fista_converged_is_kkt.
+
+(* non-vacuity of the two theorems above: the concrete problem of C01_alm_panoc_nonvacuous (n = 1, m = 1), with PANTR resp. FISTA
+   (backtracking mode, acceleration on) as inner solver: every hypothesis holds and the composed model returns Converged *)
+Example C01_alm_pantr_nonvacuous :
+  (provider_ok nvPb nvprov /\ grad_g_prod_empty_ok nvPb /\ p_crit (tp_base nvTP) = ApproxKKT /\ 0 < p_Lgamma (tp_base nvTP) /\
+   (0 < p_L0 (tp_base nvTP) \/ 0 < p_Lmin (tp_base nvTP) <= p_Lmax (tp_base nvTP)) /\
+   Forall2 box_ne [Some 0] [Some 1] /\ Forall2 box_ne (plb nvPb) (pub nvPb) /\
+   (forall x, length x = 1%nat -> length (pgrad_f nvPb x) = 1%nat) /\ (forall x y, length x = 1%nat -> length (pgrad_g_prod nvPb x y) = 1%nat) /\
+   (forall x, length x = 1%nat -> length (pg nvPb x) = 1%nat) /\
+   (forall j px Δ, length (ix px) = 1%nat -> length (fst (nv_trdir j px Δ)) = 1%nat) /\
+   Alm.p_max_iter nvAP <> 0%nat /\ sigma_inv nvAP 1 (initial_sigma nvAP 1 (pf nvPb [0]) (pg nvPb [0]) None)) /\
+  exists co,
+    alm_pantr nvPb nvprov (fun _ => []) [Some 0] [Some 1] [] 0 nv_trdir false nv_never nv_never (fun _ => false) nvTP nvAP 5 5 3 0 None [0] [0] = Some co /\
+    f_status (co_final co) = Converged /\ co_x co = [0] /\ f_y (co_final co) = [0].
+Proof. exact (conj nv_thypotheses nv_tconverged). Qed.
+Print Assumptions C01_alm_pantr_nonvacuous.
+
+Example C01_alm_fista_nonvacuous :
+  (provider_ok nvPb nvprov /\ grad_g_prod_empty_ok nvPb /\ fp_crit nvFP = ApproxKKT /\ 0 < fp_Lgamma nvFP /\
+   (0 < fp_Lmin nvFP <= fp_Lmax nvFP \/ (fp_Lmin nvFP <> fp_Lmax nvFP /\ 0 < fp_L0 nvFP)) /\
+   Forall2 box_ne [Some 0] [Some 1] /\ Forall2 box_ne (plb nvPb) (pub nvPb) /\
+   (forall x, length x = 1%nat -> length (pgrad_f nvPb x) = 1%nat) /\ (forall x y, length x = 1%nat -> length (pgrad_g_prod nvPb x y) = 1%nat) /\
+   (forall x, length x = 1%nat -> length (pg nvPb x) = 1%nat) /\
+   Alm.p_max_iter nvAP <> 0%nat /\ sigma_inv nvAP 1 (initial_sigma nvAP 1 (pf nvPb [0]) (pg nvPb [0]) None)) /\
+  exists co,
+    alm_fista nvPb nvprov [Some 0] [Some 1] [] 0 nv_fnever nv_fnever (fun _ => false) nvFP nvAP 5 3 3 0 None [0] [0] = Some co /\
+    f_status (co_final co) = Converged /\ co_x co = [0] /\ f_y (co_final co) = [0].
+Proof. exact (conj nv_fhypotheses nv_fconverged). Qed.
+Print Assumptions C01_alm_fista_nonvacuous.
